@@ -11,11 +11,16 @@ namespace Manticore.SmbIR
 open Manticore
 
 mutual
-/-- the (buffer or list field, length or count expression) pairs an unmarshal program relies on -/
+/-- the (buffer or list field, length or count expression) pairs an unmarshal program relies on, and — under the
+    pseudo-fields `padLen`, `padLen:roundUp`, `padLen:ifPOdd` — the arithmetic by which it sizes a padding field -/
 def relStmt : UStmt → List (String × Expr)
   | .readBytes _ f e => [(f, e)]
   | .forCountInt _ _ _ f g => [(f, .fint g)]
   | .forCountSub _ f g _ _ => [(f, .fint g)]
+  -- the arithmetic behind a padding length: what `padLen` starts from, and the two adjustments
+  | .setPad e => [("padLen", e)]
+  | .padRoundUp => [("padLen:roundUp", .pad)]
+  | .padIfPOdd => [("padLen:ifPOdd", .lit 1)]
   | .ifWordCount _ body => relStmts body
   | _ => []
 def relStmts : List UStmt → List (String × Expr)
@@ -50,13 +55,14 @@ def relationsHoldPinned (C : Codecs) (pinned : List (String × Expr)) (env : Env
       | _ => false) && relationsHoldPinned C pinned env plen pad r
   | pad, .forCountSub _ f g typ _ :: r =>
     (match env.get f with
-      | some (.ts vs) => evalEnv env (lookupRel pinned f (.fint g)) == some vs.length && vs.all (tupOk C typ)
+      | some (.ts vs) => evalEnv env (lookupRel pinned f (.fint g)) == some vs.length && vs.all (tupOk C typ) && vs.all (tupFix C typ)
       | _ => false) && relationsHoldPinned C pinned env plen pad r
   | pad, .whileFitsSub _ f typ _ :: r =>
     (match env.get f with | some (.ts vs) => vs.all (tupOk C typ) | _ => false) && relationsHoldPinned C pinned env plen pad r
   | pad, .cstrUnicode f :: r =>
     (match env.get f with | some (.b bs) => bs.length % 2 == 0 && (cstrUnicode (bs ++ [0, 0])).1 == bs | _ => false) && relationsHoldPinned C pinned env plen pad r
-  | _, .setPad e :: r => (match evalEnv env e with | some n => relationsHoldPinned C pinned env plen n r | none => false)
+  | _, .setPad e :: r =>
+    (match evalEnv env (lookupRel pinned "padLen" e) with | some n => relationsHoldPinned C pinned env plen n r | none => false)
   | pad, .padRoundUp :: r => relationsHoldPinned C pinned env plen (if pad % 2 = 1 then pad + 1 else pad) r
   | pad, .padIfPOdd :: r => relationsHoldPinned C pinned env plen (if (plen + 3) % 2 = 1 then 1 else pad) r
   | pad, .ifWordCount _ body :: r => relationsHoldPinned C pinned env plen pad body && relationsHoldPinned C pinned env plen pad r
